@@ -1214,4 +1214,122 @@ Section Concrete.
       + constructor; [|constructor]. right. split; [intro E; symmetry in E; now apply k_n_neq_at in E|now eexists].
       + constructor; [|constructor]. split; [apply k_at_ok|exact Ha].
   Qed.
+  (* ---------- every link form, chosen per answer ---------- *)
+
+  Hypothesis Hhostp : forallb printable host = true.
+  Variable fm : nat -> nat.   (* 0: </path?q>  1: <?q>  2: <http://host/path?q>  3: <//host/path?q> *)
+
+  Definition form_text (f : nat) (P Q : str) : str :=
+    match f with
+    | O => P ++ c_qm :: Q
+    | S O => c_qm :: Q
+    | S (S O) => b "http://" ++ host ++ P ++ c_qm :: Q
+    | _ => c_sl :: c_sl :: host ++ P ++ c_qm :: Q
+    end.
+
+  Definition render_f (i : nat) (base tgt : url) : str :=
+    form_text (fm i) (u_path tgt) (enc_pairs (shown (u_query tgt))).
+
+  Lemma form_no_gt f Q : forallb enc_char Q = true -> contains c_gt (form_text f P0 Q) = false.
+  Proof.
+    intro HQ.
+    assert (GP : contains c_gt P0 = false) by (apply (contains_forallb c_gt path_char); [reflexivity|exact HP0c]).
+    assert (GQ : contains c_gt Q = false) by (apply (contains_forallb c_gt enc_char); [reflexivity|exact HQ]).
+    assert (GH : contains c_gt host = false) by (apply (contains_forallb c_gt host_char); [reflexivity|exact Hhostc]).
+    assert (T : contains c_gt (P0 ++ c_qm :: Q) = false).
+    { rewrite contains_app, GP. cbn [contains existsb]. change (c_qm =? c_gt) with false. exact GQ. }
+    destruct f as [|[|[|f]]]; unfold form_text.
+    - exact T.
+    - cbn [contains existsb]. change (c_qm =? c_gt) with false. exact GQ.
+    - rewrite contains_app. change (contains c_gt (b "http://")) with false.
+      rewrite contains_app, GH. exact T.
+    - cbn [contains existsb]. change (c_sl =? c_gt) with false. cbn [orb].
+      change (existsb (fun d => d =? c_gt) (host ++ P0 ++ c_qm :: Q)) with (contains c_gt (host ++ P0 ++ c_qm :: Q)).
+      rewrite contains_app, GH. exact T.
+  Qed.
+
+  Lemma form_resolves f base Q :
+    u_path base = P0 -> forallb query_char Q = true ->
+    exists s h, resolve_ref (mkS sch host (u_path base) []) (form_text f P0 Q) = ROk (mkS s h P0 Q).
+  Proof.
+    intros Eb HQ.
+    assert (PQ : forallb printable Q = true) by (apply (forallb_impl query_char printable _ query_char_printable); exact HQ).
+    assert (LPQ : forallb printable (P0 ++ c_qm :: Q) = true).
+    { rewrite forallb_app, HP0p. cbn [forallb]. change (printable c_qm) with true. exact PQ. }
+    destruct f as [|[|[|f]]]; unfold form_text.
+    - eexists. eexists. apply (resolve_abs_path _ P0 segs0 Q); auto.
+    - exists sch, host. rewrite (resolve_query_only (mkS sch host (u_path base) []) segs0 Q).
+      + cbn [s_scheme s_host s_path]. now rewrite Eb.
+      + cbn [s_path]. now rewrite Eb.
+      + exact HQ.
+      + unfold link_ok. cbn [forallb]. change (printable c_qm) with true. exact PQ.
+    - eexists. eexists. apply (resolve_absolute _ host hc ht P0 segs0 Q); auto.
+      unfold link_ok. rewrite forallb_app. change (forallb printable (b "http://")) with true. cbn [andb].
+      rewrite forallb_app, Hhostp. exact LPQ.
+    - eexists. eexists. apply (resolve_scheme_relative _ host hc ht P0 segs0 Q); auto.
+      unfold link_ok. cbn [forallb]. change (printable c_sl) with true. cbn [andb].
+      rewrite forallb_app, Hhostp. exact LPQ.
+  Qed.
+
+  Lemma resolve_c_form f base tgt :
+    u_path base = P0 -> u_path tgt = P0 -> all_vs (u_query tgt) -> query_ok (u_query tgt) ->
+    resolve_c base (form_text f (u_path tgt) (enc_pairs (shown (u_query tgt)))) = Some tgt.
+  Proof.
+    intros Eb Et Av Qo. pose proof (shown_ok _ Qo) as KV. rewrite Et.
+    destruct (form_resolves f base (enc_pairs (shown (u_query tgt))) Eb (enc_pairs_query_char _ KV)) as (s & h & R).
+    unfold resolve_c. rewrite R. cbn [s_path s_query]. rewrite (parse_enc_pairs _ KV), (vsmap_shown _ Av).
+    f_equal. destruct tgt as [p q]. cbn [u_path u_query] in *. now subst p.
+  Qed.
+
+  Theorem concrete_exactly_once_forms last0 fuel :
+    c_kind c <> KReferrers ->
+    NoDup (map fst L) -> (forall it, In it L -> fst it <> []) ->
+    Forall byte_ok last0 ->
+    (forall i, (Z.of_N (d_doc_len (ds i)) <= eff_limit (c_limit c))%Z) ->
+    (length (after last0 L) < fuel)%nat ->
+    let t := loop (reg_serve (c_kind c) cu (fun _ p => p) vis L cap ds render_f trailer) resolve_c (fun _ => false) c
+                  fuel 0 0 (mkUrl P0 []) last0 in
+    t_out t = Done /\
+    concat (t_pages t) = filter vis (after last0 L) /\
+    (length (t_reqs t) <= S (length (after last0 L)))%nat.
+  Proof.
+    intros K Hnd Hne Hl Hfit Hfuel.
+    apply (listing_exactly_once_inv L cap ds render_f trailer resolve_c c cu (fun _ p => p) vis inv_c P0 last0 fuel);
+      auto.
+    - intros i base x Hi Hx. destruct (target_inv i base x Hi Hx) as (Ep & Av & Qo).
+      unfold render_f. rewrite Ep. apply form_no_gt. apply enc_pairs_enc_char. now apply shown_ok.
+    - intros i base x Hi Hx. destruct (target_inv i base x Hi Hx) as (Ep & Av & Qo).
+      destruct Hi as (Eb & _ & _). unfold render_f. now apply resolve_c_form.
+    - intros i base x Hi Hx. apply mk_request_inv; [|constructor].
+      pose proof (target_inv i base x Hi Hx) as T. exact T.
+    - apply mk_request_inv; [|exact Hl]. split; [reflexivity|]. split; constructor.
+  Qed.
+
+  Theorem concrete_referrers_forms fuel :
+    c_kind c = KReferrers ->
+    NoDup (map fst L) -> (forall it, In it L -> fst it <> []) ->
+    Forall byte_ok (c_at c) ->
+    (forall i, (Z.of_N (d_doc_len (ds i)) <= eff_limit (c_limit c))%Z) ->
+    (forall i, qget k_at (d_extra (ds i)) = None) ->
+    (length L < fuel)%nat ->
+    let t := loop (reg_serve KReferrers cu (fun _ p => p) vis L cap ds render_f trailer) resolve_c (fun _ => false) c
+                  fuel 0 0 (mkUrl P0 (referrers_query (c_at c))) [] in
+    t_out t = Done /\
+    concat (t_pages t) = filter_referrers (filter vis L) (c_at c) /\
+    (length (t_reqs t) <= S (length L))%nat.
+  Proof.
+    intros K Hnd Hne Ha Hfit Hex Hfuel.
+    apply (referrers_exactly_once_inv L cap ds render_f trailer resolve_c c cu (fun _ p => p) vis inv_c P0 fuel);
+      auto.
+    - intros i base x Hi Hx. destruct (target_inv i base x Hi Hx) as (Ep & Av & Qo).
+      unfold render_f. rewrite Ep. apply form_no_gt. apply enc_pairs_enc_char. now apply shown_ok.
+    - intros i base x Hi Hx. destruct (target_inv i base x Hi Hx) as (Ep & Av & Qo).
+      destruct Hi as (Eb & _ & _). unfold render_f. now apply resolve_c_form.
+    - intros i base x Hi Hx. apply mk_request_inv; [|constructor].
+      pose proof (target_inv i base x Hi Hx) as T. exact T.
+    - apply mk_request_inv; [|constructor]. split; [reflexivity|]. unfold referrers_query.
+      destruct (is_empty (c_at c)); [split; constructor|]. split.
+      + constructor; [|constructor]. right. split; [intro E; symmetry in E; now apply k_n_neq_at in E|now eexists].
+      + constructor; [|constructor]. split; [apply k_at_ok|exact Ha].
+  Qed.
 End Concrete.
